@@ -105,6 +105,19 @@ def layouts(tier: str) -> list[dict]:
     L[-1]["api"] = {"reverse": ["r0"]}
     add("api-group-own-fields", copy.deepcopy(sub2), [{"uid": "g", "name": "G", "sub_regs": ["s0", "s1"]}], depth_q=2, depth_t=3)
     L[-1]["api"] = {"group_fields": {"g": [["GLOW", 0, 28], ["GX", 28, 8], ["GHIGH", 36, 28]]}}
+    # fuse map (FuseRegisters / FuseRegister): the same register file plus lock views derived from a lock register
+    fl = _reg("lock", "LOCK", 0, 32, [_bf("lkf0", "W_A", 1), _bf("lkf1", "R_A", 1), _bf("lkf2", "O_A", 1), _bf("lkf3", "W_G", 1),
+                                      _bf("lkf4", "REST", 28)])
+    fa = _reg("fa", "FA", 4, 32, [_bf("faf0", "LOW", 16), _bf("faf1", "HIGH", 16)])
+    fg0, fg1 = _reg("fg0", "FG0", 8, 32, None), _reg("fg1", "FG1", 12, 32, None)
+    for i, r in enumerate((fl, fa, fg0, fg1)):
+        r["index_int"] = hex(i)
+    fa["lock"] = {"register_id": "lock", "write_lock_int": "0x1", "read_lock_int": "0x2", "operation_lock_int": "0x4"}
+    fg0["lock"] = {"register_id": "lock", "write_lock_int": "0x8"}
+    add("fuse-locks", [fl, fa, fg0, fg1], [{"uid": "fg", "name": "FG", "sub_regs": ["fg0", "fg1"]}], depth_q=2, depth_t=3)
+    L[-1]["cls"] = "fuse"
+    L[-1]["locks"] = {"fa": {"lock": "lock", "WRITE_LOCK": 1, "READ_LOCK": 2, "OPERATION_LOCK": 4},
+                      "fg0": {"lock": "lock", "WRITE_LOCK": 8}}
     return L
 
 
@@ -112,7 +125,13 @@ def build(layout: dict):
     from spsdk.utils.misc import Endianness
     from spsdk.utils.registers import Registers
 
-    regs = Registers.__new__(Registers)
+    if layout.get("cls") == "fuse":
+        from spsdk.fuses.fuse_registers import FuseRegisters
+
+        regs = FuseRegisters.__new__(FuseRegisters)
+        regs.shadow_reg_base_addr = None
+    else:
+        regs = Registers.__new__(Registers)
     regs._registers = []
     regs.family = "verif"
     regs.revision = "latest"
@@ -300,6 +319,10 @@ def ops_for(layout: dict, model: RegsModel) -> list[tuple]:
             ops.append(("cfg1", uid, f["name"], (1 << f["w"]) << f["shift"]))
     ops += [("reset_all",), ("rt_bin",), ("rt_cfg", False), ("rt_cfg", True), ("parse_prefix", 0), ("parse_prefix", 1),
             ("parse_prefix", -1)]
+    if layout.get("locks"):
+        ops.append(("update_locks",))
+        for q in ("get_lock_fuses", "get_by_otp_index", "get_lock_fuse"):
+            ops.append(("q", q))
     for q in ("get_registers", "get_registers_grp", "get_reg_names_grp", "get_reg_names_excl", "find_reg", "get_reg",
               "get_bitfields", "schema", "get_diff", "image_info", "str", "get_config", "export"):
         ops.append(("q", q))
@@ -334,6 +357,12 @@ def query(regs, name: str, model: RegsModel) -> Any:
         return core.jdump(regs.get_config())
     if name == "export":
         return regs.export()
+    if name == "get_lock_fuses":
+        return sorted(r.uid for r in regs.get_lock_fuses())
+    if name == "get_by_otp_index":
+        return [regs.get_by_otp_index(i).uid for i in range(len(model.order))]
+    if name == "get_lock_fuse":
+        return [getattr(regs.get_lock_fuse(find_target(regs, u)), "uid", None) for u in model.order]
     raise AssertionError(name)
 
 
@@ -369,6 +398,8 @@ def step(regs, model: RegsModel, op: tuple, lname: str) -> list:
             regs.load_yml_config({find_target(regs, op[1]).name: {op[2]: op[3]}})
         elif kind == "reset_all":
             regs.reset_values()
+        elif kind == "update_locks":
+            regs.update_locks()
         elif kind == "rt_bin":
             data = regs.export()
             impl_ret = len(data)
@@ -496,6 +527,32 @@ def step(regs, model: RegsModel, op: tuple, lname: str) -> list:
                 got = g.get_value(raw=raw)
                 if got != model.get(gid, raw):
                     viol.append(("C11.group-view", f"raw={raw}" + _grp_disc(("", gid), model), f"{lname} after {op}: group reads {got:#x}, sub-registers say {model.get(gid, raw):#x}"))
+        # fuse locks: right after an operation that re-derives them (configuration load, update_locks) every lock flag
+        # equals (lock register value & mask) != 0, and is_readable / is_writable follow; stored values never depend on locks
+        locks = model.layout.get("locks")
+        if locks and exc is None and kind in ("cfg1", "rt_cfg", "update_locks"):
+            from spsdk.fuses.fuse_registers import FuseLock
+
+            for u, spec in locks.items():
+                r = find_target(regs, u)
+                lv = model.get(spec["lock"], False)
+                for lt in ("WRITE_LOCK", "READ_LOCK", "OPERATION_LOCK"):
+                    want = (lv & spec[lt]) != 0 if lt in spec else False
+                    got = FuseLock.from_label(lt) in r.get_active_locks() if hasattr(FuseLock, "from_label") else None
+                    got = getattr(FuseLock, lt) in r.get_active_locks()
+                    if got != want:
+                        viol.append(("C11.lock-view", lt, f"{lname} after {op}: {u} {lt} is {got}, lock register {lv:#x} & {spec.get(lt, 0):#x} says {want}"))
+                wl = (lv & spec.get("WRITE_LOCK", 0)) != 0
+                rl = (lv & spec.get("READ_LOCK", 0)) != 0
+                if r.is_writable != (not wl) or r.is_readable != (not rl):
+                    viol.append(("C11.lock-view", "is_readable/is_writable", f"{lname} after {op}: {u} readable {r.is_readable} writable {r.is_writable}, locks say read-locked {rl} write-locked {wl}"))
+        if locks and kind == "q" and exc is None and op[1] in ("get_lock_fuses", "get_by_otp_index", "get_lock_fuse"):
+            want_q = {"get_lock_fuses": sorted({sp["lock"] for sp in locks.values()}),
+                      "get_by_otp_index": list(model.order),
+                      "get_lock_fuse": [locks.get(u, {}).get("lock") for u in model.order]}[op[1]]
+            got_q = query(regs, op[1], model)
+            if got_q != want_q:
+                viol.append(("C11.fuse-query", op[1], f"{lname}: {got_q} expected {want_q}"))
     except Exception as e:  # noqa
         viol.append(("C11.view-raises", type(e).__name__, f"{lname} after {op}: {e}"))
     return viol
